@@ -257,7 +257,7 @@ theorem C13_window_bound (content : Smpl.Roland.Bytes) (start n : Int) (rev : Bo
           | case1 a b rest ih => simp [Smpl.ShortRead.reverseWords]; omega
           | case2 t _ => unfold Smpl.ShortRead.reverseWords; split <;> simp_all
         exact Nat.le_trans (this _) hlen
-      · simp at h
+      · simp at h; subst h; simp
     · simp at h; subst h; exact hlen
 
 /-! ## AKAI program keygroup chain -/
